@@ -621,7 +621,7 @@ FLOAT_FUNCS = {'cos', 'sin', 'tan', 'sqrt', 'hypot', 'arctan2', 'arctan', 'arcsi
 KEEP_FUNCS = {'abs', 'absolute', 'fabs', 'asarray', 'asanyarray', 'atleast_1d', 'atleast_2d', 'array', 'ravel', 'flatten',
               'reshape', 'squeeze', 'negative', 'add', 'subtract', 'sum', 'min', 'max', 'copy', 'where', 'minimum',
               'maximum', 'broadcast_arrays'}
-PRODUCT_FUNCS = {'multiply', 'dot', 'inner', 'outer', 'cross', 'prod', 'matmul', 'einsum', 'vdot'}
+PRODUCT_FUNCS = {'multiply', 'dot', 'inner', 'outer', 'cross', 'prod', 'matmul', 'einsum', 'vdot', 'tensordot'}
 POWER_FUNCS = {'square', 'power'}
 KIND_ORDER = {'float': 3, 'coord': 2, 'scalar': 1}
 
@@ -633,8 +633,9 @@ class _DtypeLint:
     integer array), 'float' (surely floating: float literal, true division, trig/sqrt/hypot result, Quantity, explicit
     float dtype), 'scalar' (a Python number or unknown: neither overflows nor promotes)."""
 
-    def __init__(self, ctx, model, coord_attrs=('x', 'y', 'xy')):
+    def __init__(self, ctx, model, coord_attrs=('x', 'y', 'xy'), sums=True):
         self.ctx, self.m = ctx, model
+        self.sums = sums        # also report sums/differences of possibly-integer coordinate arrays (offsets)
         self.coord_attrs = set(coord_attrs)     # attributes whose value keeps the caller's (possibly fixed-width) integer type
         self.problems = []          # (FuncInfo, node, text)
         self.done = {}
@@ -744,6 +745,10 @@ class _DtypeLint:
                 if a == 'coord' and b == 'coord':
                     self.problems.append((fi, n, f'`{ast.unparse(n)}` multiplies two values that may be integer arrays'))
                 return self._join((a, b))
+            if isinstance(n.op, (ast.Add, ast.Sub)) and self.sums and 'coord' in (a, b) and 'float' not in (a, b):
+                self.problems.append((fi, n, f'`{ast.unparse(n)}` adds / subtracts coordinate values in their own dtype (for an '
+                                      'unsigned integer array 4 - 5 is 255, for int8 100 - (-100) is -56)'))
+                return 'float'       # reported once, at the first operation
             if isinstance(n.op, ast.Pow):
                 if a == 'coord' and not (isinstance(n.right, ast.Constant) and n.right.value in (0, 1)) and b != 'float':
                     self.problems.append((fi, n, f'`{ast.unparse(n)}` raises a value that may be an integer array to a power'))
@@ -824,9 +829,10 @@ def r9(ctx):
         if new:
             fi, node, text = new[0]
             ctx.bad(f'{f.cls}.contains', 'integer-overflow',
-                    f'{text} (in {fi.qualname.split(":")[1]}): PixCoord keeps the caller\'s dtype, so for integer positions and an '
-                    'integer centre the product wraps around silently (int32: |offset| >= 46341) and far-away positions are '
-                    'reported inside; convert to float first (np.hypot, a float factor, or dtype=float)', fi.loc(node))
+                    f'{text} (in {fi.qualname.split(":")[1]}): PixCoord keeps the caller\'s dtype and a region\'s centre is a Python '
+                    'scalar, which does not widen an integer array, so for integer query positions the arithmetic wraps around '
+                    'silently (uint8: every position left of the centre; int32 products: |offset| >= 46341) and membership is '
+                    'wrong; convert to float first (np.subtract(..., dtype=float), np.asarray(..., dtype=float))', fi.loc(node))
         else:
             ctx.ok(f'{f.cls}.contains', 'no product/power of possibly-integer coordinate arrays')
     ctx.note(f'R9 analysed {len(lint.done)} function instances reachable from {n} contains() methods')
